@@ -278,21 +278,25 @@ def make_rows(kind, T, reps, count, rng):
 
 def run_load(P, fname, use_sympy, bcast_res, rows, twopass_dir=None, timeout=900):
     from spmd import run_spmd
+    # a rank that raises leaves the others waiting in the next collective until mpi_timeout
     res = run_spmd(P, "rt_c17:_load_entry", (fname, MAXP, use_sympy, bcast_res, rows, twopass_dir), timeout=timeout,
-                   mpi_timeout=min(timeout, 600), quiet=2)
+                   mpi_timeout=45 if len(rows) < 3000 else 150, quiet=2)
     return res
 
 
 def judge(res, P, bcast_res=True):
     """-> (failures, machinery error)"""
     fails = []
-    for r, rr in enumerate(res):
+    # report the rank that raised first, not the ones that then waited in vain for it
+    order = sorted(range(len(res)), key=lambda r: "MPIStandinError" in (res[r]["error"] or ""))
+    for r in order:
+        rr = res[r]
         if rr["status"] == "timeout":
             return [], "load_subs on %d ranks: rank %d did not finish in time" % (P, r)
         if rr["status"] != "ok":
             fails.append({"row": None, "error": "load_subs raised on rank %d of %d: %s" % (r, P, (rr["error"] or "")[-700:])})
     if fails:
-        return fails[:2], None
+        return fails[:1], None
     fails += res[0]["result"]["failures"]
     d0 = res[0]["result"]["digest"]
     for r in range(1, P):
@@ -366,12 +370,16 @@ def mode_roundtrip(p):
             sets = [(st["rows"], make_rows(st["rows"], T, reps, st.get("count", 200), rng))]
         info = {"name": st.get("name", st["rows"]), "rows": 0, "entries": 0, "runs": 0}
         for nm, rows in sets:
+            if len(out["failures"]) >= 4:
+                break
             fname = os.path.join(work, "subs_%d_%s.txt" % (si, nm.replace(" ", "_")))
             write_rows(fname, T, rows)
             info["rows"] += len(rows)
             for P in st.get("P", [1]):
                 for us in st.get("use_sympy", [True]):
                     for bc in st.get("bcast", [True]):
+                        if len(out["failures"]) >= 4:
+                            continue
                         tp = None
                         if st.get("twopass") and not us and P == st.get("P", [1])[0]:
                             tp = os.path.join(work, "tp_%d" % si)
